@@ -137,20 +137,26 @@ impl<'a> ResponseData for &'a str {
     }
 }
 
+/// Push the body of a quoted string response: `s` with every embedded `"` doubled.
+fn push_escaped(formatter: &mut dyn Formatter, s: &[u8]) -> Result<()> {
+    let mut first = true;
+    for ss in s.split(|x| *x == b'"') {
+        if !first {
+            formatter.push_str(br#""""#)?;
+        }
+        formatter.push_ascii(ss)?;
+        first = false;
+    }
+    Ok(())
+}
+
 impl<'a> ResponseData for &'a [u8] {
     fn format_response_data(&self, formatter: &mut dyn Formatter) -> Result<()> {
         if !self.is_ascii() {
             Err(ErrorCode::ExecutionError.into())
         } else {
-            let mut first = true;
             formatter.push_byte(b'"')?;
-            for ss in self.split(|x| *x == b'"') {
-                if !first {
-                    formatter.push_str(br#""""#)?;
-                }
-                formatter.push_ascii(ss)?;
-                first = false;
-            }
+            push_escaped(formatter, self)?;
             formatter.push_byte(b'"')
         }
     }
@@ -162,10 +168,14 @@ impl ResponseData for Error {
         formatter.data_separator()?;
 
         if let Some(ext) = self.get_extended() {
+            let message = self.get_message();
+            if !message.is_ascii() || !ext.is_ascii() {
+                return Err(ErrorCode::ExecutionError.into());
+            }
             formatter.push_byte(b'"')?;
-            formatter.push_str(self.get_message())?;
+            push_escaped(formatter, message)?;
             formatter.push_byte(b';')?;
-            formatter.push_str(ext)?;
+            push_escaped(formatter, ext)?;
             formatter.push_byte(b'"')
         } else {
             self.get_message().format_response_data(formatter)
